@@ -239,6 +239,17 @@ func c04Scan(model gm.G, g geom.Geometry, lib, mixed []byte, cx *h.Ctx) *h.Failu
 		if d := gm.Diff(model, gm.FromGeom(dst)); d != "" {
 			return h.Failf("wkb/scan-differs", "Geometry.Scan gives a different geometry for %s: %s", model, d)
 		}
+		// a copy taken of the destination keeps its value when the destination is scanned into again (the next
+		// row of a query), also when the next geometry has the same type
+		held := dst
+		for _, next := range []geom.Geometry{dirty(model.Norm().T), dirty(gm.GeometryCollection), g.Reverse()} {
+			if err := dst.Scan(next.AsBinary()); err != nil {
+				return h.Failf("wkb/scan-error", "Geometry.Scan of a second row fails: %v", err)
+			}
+			if d := gm.Diff(model, gm.FromGeom(held)); d != "" {
+				return h.Failf("wkb/scan-overwrites-held-copy", "a copy of the destination taken after the first Scan changed when the destination was scanned into again: %s", d)
+			}
+		}
 		ng := geom.NullGeometry{Geometry: dirty(gm.Types[(si+3)%len(gm.Types)]), Valid: si%2 == 0}
 		if err := ng.Scan(src); err != nil || !ng.Valid {
 			return h.Failf("wkb/nullscan-error", "NullGeometry.Scan fails on %s: %v valid=%v", model, err, ng.Valid)
